@@ -193,6 +193,10 @@ ADDENDA8 = {
  "C08": " A class nested in itself (typing.Self, its own name, its own name under postponed annotations; Optional / List / Dict positions): every Config vector x Config.dialect x flag subset x keyword combination on seven trees - the options must reach every level.",
  "C13": " A class-form SerializationStrategy object for a type the orjson dialect has its own entry for (UUID); one Dialect class handed to the codecs of two formats (every ordered pair): the second format's documents and decoded values must equal those of a fresh dialect.",
  "C14": " Finer scheduling points (every library source line that calls setattr / getattr / hasattr / exec, touches __dict__, a *_cache or __mashumaro* attribute, or names a module-level mutable object - found by an AST scan of the current tree) for five harnesses at preemption bound 1 (quick) and every two-thread harness (thorough).",
+ "C11": " Nullable ordered collections (list / variadic tuple / deque / Sequence, mappings) with Optional elements, as an Optional field, a list of Optionals and a three-member union.",
+ "C16": " 15 encoding-sensitive strings (outside the BMP, combining marks, U+2028 / U+2029 / NEL, BOM, directional mark, case-folding traps) in every position.",
+ "C18": " ChainMap / defaultdict / MutableMapping positions; a ChainMap's list of maps and each map count as the instance's containers.",
+ "C19": " Classes without fields (hooks log into a trace): own or inherited hooks x five class kinds x five positions x every entry point, two rounds.",
  "C17": " Decoding a VALID document of a class that is not a module attribute is judged separately from the error paths (for dataclass kinds it must work).",
 }
 for _k, _v in ADDENDA8.items():
